@@ -1,5 +1,6 @@
 import Mochi.Model.Broker
 import Mochi.Props.C15
+import Mochi.Lemmas.BrokerSession
 /-!
 # C14 — Session present flag and session takeover behave per clean start
 
@@ -75,3 +76,40 @@ example : (demoB, (run (init {}) (demoTakeover.take 4)).objs.length) ∈ (run (i
 example : indexEntries (run (init {}) demoTakeover).topics = [(demoA, [97]), (demoA, demoShare)] := by decide
 
 end Mochi.Broker
+
+/-! ## Session present, for every sequential history (`Mochi/Lemmas/BrokerSession.lean`) -/
+namespace Mochi.Broker
+open Mochi.Topics
+
+/-- **C14, session present.**  `s` reachable by a sequential history, `conn` a fresh connection number, `k` a CONNECT
+    that is ADMITTED (`refuseCode … = none` in the state where the new client object exists).  The first packet written
+    to `conn` is the CONNACK of the op (`C13_connack_first_seq`); here its fields are pinned:
+
+    * its protocol version is the CONNECT's (`k.ver`), its reason code 0, receive maximum and maximum QoS the server's;
+    * its session-present flag `sp` is true IFF a session is registered under `k.id` in `s` that is not an MQTT 3
+      clean session, AND the CONNECT does not ask for Clean Start — `sp = sessionExisted s k.id && !k.clean`;
+    * no other CONNACK is written to `conn`. -/
+theorem C14_session_present_iff_seq (caps : Caps) (s : Server) (hr : ReachSeq caps s) (conn : Nat) (k : Connect)
+    (hf : conn ∉ s.connOf.map (·.1))
+    (hadm : refuseCode (connState s conn k) k (parseConnect s conn k) = none) :
+    ∃ sp seiOut rest,
+      writesTo conn (step s (.connect conn k)).2 =
+        .connack k.ver sp 0 s.caps.receiveMaximum s.caps.maximumQos seiOut :: rest ∧
+      (∀ pk ∈ rest, pk.isConnack = false) ∧
+      (sp = true ↔
+        (∃ e, assocGet s.clients k.id = some e ∧ ¬ ((getObj s e).clean = true ∧ (getObj s e).ver < 5)) ∧
+          k.clean = false) ∧
+      sp = (sessionExisted s k.id && !k.clean) := by
+  obtain ⟨hs, hw, hcm, _⟩ := hr.inv
+  obtain ⟨c', pre, seiOut, post, hc', hto, ho, hnp⟩ := sp14_connect_admitted_out s hs hw hcm conn k hadm hf
+  refine ⟨sessionExisted s k.id && !k.clean, seiOut, writesTo conn post, ?_, writesTo_noConnack hnp, ?_, rfl⟩
+  · rw [ho, writesTo_append, writesTo_append, writesTo_takeover hto hc']
+    simp [writesTo]
+  · unfold sessionExisted
+    cases he : assocGet s.clients k.id with
+    | none => simp
+    | some e => cases hcl : k.clean <;> cases hc : (getObj s e).clean <;> simp [hc]
+
+end Mochi.Broker
+
+#print axioms Mochi.Broker.C14_session_present_iff_seq
